@@ -5,7 +5,7 @@
    quantified over by `forall ds`); a history `h` is ANY list of encode calls on ANY datasets;
    `vr` selects the code as it is (c07_faithful) or its repairs. *)
 From Coq Require Import Reals Permutation.
-From Verif Require Import Base C07 C07_proofs C07_reals C07_exodus_repaired.
+From Verif Require Import Base C07 C07_proofs C07_reals C07_exodus_repaired C07_scrip_repaired.
 
 (* ---- the module-level template -------------------------------------------------------- *)
 
@@ -186,6 +186,20 @@ Theorem C07_scrip_roundtrip : forall m t lon lat,
     length (dc_fnc d) = length t.
 Proof. exact c07_scrip_roundtrip. Qed.
 Print Assumptions C07_scrip_roundtrip.
+
+(* the proposed repair (encoder repeats the last corner of shorter faces, reader turns repeated
+   trailing corners back into padding): grids MIXING face sizes, whose faces have pairwise distinct
+   corner positions, come back with the same faces, face order, corner order and positions *)
+Theorem C07_scrip_repaired_roundtrip : forall m t lon lat,
+  std_table m t ->
+  Forall (fun r => corners r <> [] /\
+                   Forall (fun i => 0 <= i < Z.of_nat (length lon)) (corners r) /\
+                   NoDup (map (c07_pos lon lat) (corners r))) t ->
+  exists c d, c07_encode_scrip true t lon lat = Some c /\ c07_read_scrip true true c = Some d /\
+    c07_positions (dc_lon d) (dc_lat d) (dc_fnc d) = c07_positions lon lat t /\
+    length (dc_fnc d) = length t.
+Proof. exact c07_scrip_repaired_roundtrip. Qed.
+Print Assumptions C07_scrip_repaired_roundtrip.
 
 (* grids mixing face sizes: the encoder indexes with the fill value and raises *)
 Theorem C07_scrip_mixed_refuted :
